@@ -28,7 +28,7 @@ func init() {
 		rng := rand.New(rand.NewSource(seed*601 + 12))
 		n := 800
 		if tier == "thorough" {
-			n = 12000
+			n = 40000
 		}
 		for i := 0; i < n; i++ {
 			cfg := WorldCfg{Dir: "reverse"}
